@@ -270,7 +270,11 @@ impl Mux {
                         length -= size;
                     }
                 }
-                _ => unreachable!("bad FrameKind"),
+                _ => {
+                    return Err(RunError::Protocol(anyhow::format_err!(
+                        "bad frame kind: {header:?}"
+                    )))
+                }
             }
         }
     }
